@@ -89,8 +89,14 @@ fn run_case(site: &Site, code: u8, inter: usize, receipt_field: Option<u32>, acc
         *hit2.borrow_mut() += 1;
         let r = Replies { table: t.table };
         let mut s = vec![r.ack()];
-        for _ in 0..inter {
-            s.push(r.intermediate(0x17));
+        if inter <= 2 {
+            for _ in 0..inter {
+                s.push(r.intermediate(0x17));
+            }
+        } else {
+            // a status information with a result code of its own ahead of the abort
+            let own = if inter == 3 { 0x00u64 } else { 0xa0 };
+            s.push(r.status(&[("result_code", vcore::codec::Val::Int(own)), ("amount", vcore::codec::Val::Int(958))], "status-ahead-of-abort"));
         }
         s.push(match request {
             "PartialReversal" | "PreAuthReversal" | "EndOfDay" => r.reversal_abort(code, receipt_field),
@@ -157,7 +163,9 @@ pub fn run(run: &RunInfo) -> Summary {
         // shapes of the abort packet: plain, and (where the packet type has the field) carrying a
         // receipt number field with the 'none' marker FFFF or an ordinary number
         let shapes: Vec<Option<u32>> = if ["PartialReversal", "PreAuthReversal", "EndOfDay"].contains(&site.request) { vec![None, Some(0xffff), Some(17)] } else { vec![None] };
-        for (inter, shape) in (0..=site.max_inter).flat_map(|i| shapes.iter().map(move |s| (i, *s))) {
+        let status_in_set = ["Reservation", "PartialReversal", "PreAuthReversal", "EndOfDay"].contains(&site.request);
+        let top = if status_in_set && site.max_inter == 2 { 4 } else { site.max_inter };
+        for (inter, shape) in (0..=top).flat_map(|i| shapes.iter().map(move |s| (i, *s))) {
             if shape.is_some() && inter > 0 {
                 continue;
             }
@@ -203,7 +211,7 @@ pub fn run(run: &RunInfo) -> Summary {
                 _ => acc.count("w_translated", 1),
             }
             if let Some(p) = problem {
-                acc.violation(viol(key, format!("abort with result code {hex_text} in exchange {} ({:?}) after {inter} intermediate packets\n{p}\ntrace:\n  {}", site.name, site.xch, trace.join("\n  ")), code as u64));
+                acc.violation(viol(key, format!("abort with result code {hex_text} in exchange {} ({:?}) after {} \n{p}\ntrace:\n  {}", site.name, site.xch, match inter { 3 => "a status information with result code 00".to_string(), 4 => "a status information with result code A0".to_string(), n => format!("{n} intermediate packets") }, trace.join("\n  ")), code as u64));
             }
         }
     });
@@ -222,7 +230,7 @@ pub fn run(run: &RunInfo) -> Summary {
         transitions: acc.get("transitions"),
         traces_validated: execs,
         distinct_nontrivial: acc.set_len("outcomes"),
-        rule: format!("real Feig client against the simulated terminal: all 256 result codes x {} abort sites (read card; reservation; the partial reversal of commit; the reversal of cancel; pending query, dangling reversal and end-of-day of the clean-up of commit, cancel and configure; system info, set-terminal-id and initialisation of configure) x abort after 0, 1 and 2 intermediate packets where the reply set allows them, the abort packet plain and (for the reversal-type aborts) carrying a receipt-number field with FFFF or an ordinary number. The call must fail with Aborted(code), or an error text naming 0x<code> or (read card) the chapter-10 message of the code; the only renamings/successes are 6C at read card, FC at reservation, A0 at end-of-day and the query's own reply code B8", all.len()),
+        rule: format!("real Feig client against the simulated terminal: all 256 result codes x {} abort sites (read card; reservation; the partial reversal of commit; the reversal of cancel; pending query, dangling reversal and end-of-day of the clean-up of commit, cancel and configure; system info, set-terminal-id and initialisation of configure) x abort after 0, 1 and 2 intermediate packets where the reply set allows them, and after a status information carrying a result code of its own (00, A0), the abort packet plain and (for the reversal-type aborts) carrying a receipt-number field with FFFF or an ordinary number. The call must fail with Aborted(code), or an error text naming 0x<code> or (read card) the chapter-10 message of the code; the only renamings/successes are 6C at read card, FC at reservation, A0 at end-of-day and the query's own reply code B8", all.len()),
         exhaustive: true,
         required_witnesses: vec!["aborts were reported with their code".into(), "the documented translations were exercised".into()],
         assumptions: vec![
